@@ -469,7 +469,7 @@ def run_case(case, ses):
     except Exception as e:
         from ..drogen import MAY_RAISE
         if (case['kind'] == 'dro' and case.get('member') in MAY_RAISE) or \
-                (case['kind'] == 'det' and case.get('member', '').split('-')[0].split(':')[-1] in ('sumpexp', 'sumplog')):
+                (case['kind'] == 'det' and case.get('member', '').split('-')[0].split(':')[-1] in ('sumpexp', 'sumplog', 'sumexpnest')):
             # members RSOME may refuse loudly
             ses.stats.kinds['member-rejected-by-rsome'] = ses.stats.kinds.get('member-rejected-by-rsome', 0) + 1
             return
